@@ -67,7 +67,11 @@ def generate_graph(
     )
 
     all_modules = _append_external_modules_to_module_list(
-        all_modules, exclude_external_libraries, imports, root_path, external_exclusions
+        all_modules,
+        exclude_external_libraries,
+        [i for i in imports if not _is_internal(i.importee(), internal_module_prefix)],
+        root_path,
+        external_exclusions,
     )
     return EvaluableArchitectureGraph(NetworkxGraph(all_modules, imports, level_limit))
 
@@ -178,5 +182,9 @@ def _get_all_ast_modules(
 def _get_all_internal_modules(
     modules: list[str], internal_module_prefix: str
 ) -> set[str]:
+    return {m for m in modules if _is_internal(m, internal_module_prefix)}
+
+
+def _is_internal(module: str, internal_module_prefix: str) -> bool:
     prefix = internal_module_prefix.rstrip(".")
-    return {m for m in modules if m == prefix or m.startswith(f"{prefix}.")}
+    return module == prefix or module.startswith(f"{prefix}.")
